@@ -159,6 +159,12 @@ pub struct Server {
     pub stopped: bool,
     /// number of framed PDUs (TPKT / fast-path) queued so far; the client consumes one per read
     pub frames_sent: usize,
+    /// pump in which the final CredSSP reply went out / in which the credentials were decoded
+    pub nla_final_pump: u64,
+    /// raw client frames (is_client_info, bytes), kept when `keep_frames` is set
+    pub frames: Vec<(bool, Vec<u8>)>,
+    pub keep_frames: bool,
+    pub nla_done_pump: u64,
 }
 
 impl Server {
@@ -201,6 +207,10 @@ impl Server {
             info_seen: false,
             stopped: false,
             frames_sent: 0,
+            nla_final_pump: 0,
+            frames: Vec::new(),
+            keep_frames: false,
+            nla_done_pump: 0,
         }
     }
 
@@ -470,6 +480,9 @@ impl Server {
     fn on_frame(&mut self, frame: Vec<u8>) {
         let expect_info = !self.info_seen && matches!(self.phase, Phase::ExpectInfo);
         let decoded = strict::decode_frame(&frame, expect_info);
+        if self.keep_frames {
+            self.frames.push((expect_info, frame.clone()));
+        }
         let seq;
         {
             let mut ctx = self.ctx.borrow_mut();
@@ -611,6 +624,9 @@ impl Server {
                 let c = step.consumed;
                 self.inbuf.drain(..c);
                 for (name, bytes) in step.replies {
+                    if name == "cssp-pubkeyauth-reply" {
+                        self.nla_final_pump = self.pumps;
+                    }
                     // TSRequests travel one per TLS record
                     self.flush();
                     let w = { let mut w = Wr::new(); w.bytes("tsrequest", &bytes); w };
@@ -625,6 +641,7 @@ impl Server {
                 }
                 if step.done {
                     self.nla_done = true;
+                    self.nla_done_pump = self.pumps;
                     self.phase = Phase::ExpectConnectInitial;
                     progress = true;
                     continue;
